@@ -103,6 +103,40 @@ func openBodies(rnd *rand.Rand, remoteAS uint32, localID uint32, thorough bool) 
 		out = append(out, openBody(4, as2, 90, rid, l))
 		out = append(out, openBody(4, 23456, 90, rid, l))
 	}
+	if remoteAS > 65535 {
+		out = append(out, openBody(4, uint16(remoteAS), 90, rid, goodP), openBody(4, uint16(remoteAS>>16), 90, rid, goodP))
+	}
+	// random layouts: 1-3 capability parameters with 1-3 capabilities each
+	pool := [][]byte{mp, capB(1, []byte{0, 2, 0, 1}), capB(2, nil), capB(64, []byte{0, 120, 0, 1, 1, 0}), capB(69, []byte{0, 1, 1, 3}),
+		capB(70, nil), capB(128, nil), capB(73, []byte{1, 65, 0})}
+	nl := 60
+	if thorough {
+		nl = 3000
+	}
+	for i := 0; i < nl; i++ {
+		np := 1 + rnd.Intn(3)
+		params := make([][][]byte, np)
+		for p := range params {
+			for c := 0; c < 1+rnd.Intn(3); c++ {
+				params[p] = append(params[p], pool[rnd.Intn(len(pool))])
+			}
+		}
+		kind := rnd.Intn(5)
+		if kind < 4 {
+			pi := rnd.Intn(np)
+			at := rnd.Intn(len(params[pi]) + 1)
+			c4 := good4
+			if kind == 3 {
+				c4 = capB(65, u32B(remoteAS^256))
+			}
+			params[pi] = append(params[pi][:at], append([][]byte{c4}, params[pi][at:]...)...)
+		}
+		var pl []byte
+		for _, p := range params {
+			pl = append(pl, capsParam(p...)...)
+		}
+		out = append(out, openBody(4, as2, 90, rid, pl))
+	}
 	good := openBody(4, as2, 90, rid, capsParam(mp, good4))
 	for _, d := range []int{-1, 1, -9} {
 		b := append([]byte{}, good...)
